@@ -72,6 +72,7 @@ type Interp struct {
 	cacheHits    int
 	unknownFeas  int
 	crossChecked int
+	crossInt     int // of those: hard-arithmetic queries cross-checked through the integer translation
 	cross        *Solver
 	crossCache   map[string]Result
 	uniq         map[string]Value // unique.Make interning
